@@ -55,6 +55,8 @@ pub enum Reply {
         /// the connection is cut after this many body bytes (decided by the server side)
         cut_at: Option<usize>,
     },
+    /// A response with an arbitrary (possibly non-UTF-8) body.
+    Raw { status: u16, body: Vec<u8> },
     /// The request could not be sent / the connection failed before a response.
     SendError,
 }
@@ -174,6 +176,7 @@ impl<B: Backend> Transport for SimTransport<B> {
                 let e = w.core.elapsed_ms() as u64;
                 let code = match &reply {
                     Reply::Text { status, .. } => *status as u64,
+                    Reply::Raw { status, .. } => *status as u64,
                     Reply::Object { .. } => 200,
                     Reply::SendError => 0,
                 };
@@ -441,6 +444,15 @@ pub fn build_response(reply: Reply, plan: &BodyPlan) -> Result<reqwest::Response
                 .header("Content-Type", "application/xml")
                 .header("Server", "AmazonS3")
                 .body(make_body(body.into_bytes(), plan))
+                .expect("response");
+            Ok(reqwest::Response::from(resp))
+        }
+        Reply::Raw { status, body } => {
+            let resp = http::Response::builder()
+                .status(status)
+                .header("Content-Type", "application/xml")
+                .header("Server", "AmazonS3")
+                .body(make_body(body, plan))
                 .expect("response");
             Ok(reqwest::Response::from(resp))
         }
